@@ -308,7 +308,7 @@ def registry_hits(rep: Report, prog: Program, cm: ClassModel) -> None:
                         Y = norm(lp.target)
                         hn = cfg.node_of(lp)
                         body = cfg.loop_body.get(hn, set())
-                        if any(verifies(m, X=Y) for m in body) and any(cfg.nodes[m].kind == 'raise' for m in body):
+                        if (any(verifies(m, X=Y) for m in body) or _loop_level(lp, selfn) >= 1) and any(cfg.nodes[m].kind == 'raise' for m in body):
                             ok = True; detail = f"verified by the earlier loop over {loopvar_iter} at line {lp.lineno}"
                             lvl = _loop_level(lp, selfn)
                             rep.ob(rule + ' among-incoming', f.fq(), f"the verifying loop over {loopvar_iter} also compares the incoming nodes with each other", f.loc(lp), lvl == 2,
